@@ -182,6 +182,19 @@ impl<F: Fam> Ctx<F> {
                     if c1 != c2 || c2 != c1 || c1.len() != c2.len() {
                         return Err(format!("par_extend built a map of {} elements, extend {}", c1.len(), c2.len()));
                     }
+                    // the by-reference form (Copy elements), onto the map itself being mid-resize or not
+                    let mut c3 = m.clone();
+                    if F::par_extend_ref(&mut c3, &items) && (c3 != c2 || c2 != c3 || c3.len() != c2.len()) {
+                        return Err(format!("par_extend of (&K, &V) built a map of {} elements, extend {}", c3.len(), c2.len()));
+                    }
+                    // a cloned parallel iterator is a second, complete traversal
+                    let pi = m.par_iter();
+                    let pc = pi.clone();
+                    let (n1, n2) = (pi.count(), pc.count());
+                    let (k1, v1) = (m.par_keys().clone().count(), m.par_values().clone().count());
+                    if n1 != want.len() || n2 != want.len() || k1 != want.len() || v1 != want.len() {
+                        return Err(format!("cloned parallel iterators counted {} / {} / {} / {} elements, map has {}", n1, n2, k1, v1, want.len()));
+                    }
                     let f1 = Map::<F>::from_par_iter(items.clone());
                     let f2: Map<F> = items.into_iter().collect();
                     if f1 != f2 || f1.len() != f2.len() {
@@ -289,6 +302,11 @@ impl<F: Fam> Ctx<F> {
                         if c1 != c2 || c1.len() != c2.len() {
                             return Err(format!("set par_extend built {} elements, extend {}", c1.len(), c2.len()));
                         }
+                        let mut c3 = x.clone();
+                        if F::set_par_extend_ref(&mut c3, &items) && (c3 != c2 || c3.len() != c2.len()) {
+                            return Err(format!("set par_extend of &T built {} elements, extend {}", c3.len(), c2.len()));
+                        }
+                        chk("(&set).into_par_iter", x.into_par_iter().map(|k| k.k()).collect(), mx.iter().copied().collect())?;
                         let f1 = Set::<F>::from_par_iter(items.clone());
                         let f2: Set<F> = items.into_iter().collect();
                         if f1 != f2 {
